@@ -234,6 +234,15 @@ func (g *gen) leaf(nv int) *NodeSpec {
 				vs.Fb.Pay = "result"
 			}
 		}
+		if g.chance(0.08) {
+			// a list of Results as an ordinary payload of a non-batch node
+			if vs.Prep.Fail == "" {
+				vs.Prep.Pay = "reslist"
+			}
+			if a := g.r.IntN(len(vs.Exec) + 1); a < len(vs.Exec) && vs.Exec[a].Fail == "" {
+				vs.Exec[a].Pay = "reslist"
+			}
+		}
 		n.Visits = append(n.Visits, vs)
 	}
 	g.sc.Nodes = append(g.sc.Nodes, n)
@@ -1797,7 +1806,20 @@ func genC20(prop, tier string, r *rand.Rand) *Scn {
 
 func genC10(prop, tier string, r *rand.Rand) *Scn {
 	sc := genC10base(prop, tier, r)
-	if r.IntN(6) == 0 {
+	wrapped := false
+	if r.IntN(5) == 0 && !hasNested(sc) {
+		// embedded flows used through a type that embeds *flyt.Flow and has a
+		// Prep and a Post of its own (they leave enter/leave marks in the store
+		// and Post names the action): such a flow is a node of its parent like
+		// any other - its own lifecycle steps run around the embedded walk
+		for _, n := range sc.Nodes {
+			if n.Kind == "flow" && n.ID != sc.Root && r.IntN(2) == 0 {
+				n.Wrap = pick(r, []string{"a", "b", "default", "ab"})
+				wrapped = true
+			}
+		}
+	}
+	if r.IntN(6) == 0 && !wrapped {
 		// nested and flattened arrangement also agree on where a cancelled run stops
 		cancelInPlainCallback(sc, r)
 	}
